@@ -30,6 +30,14 @@ impl<'a> World<'a> {
                     self.c18_busy = true;
                     self.end_ms = 4 * k + 50;
                     self.rep.probe("c18_busy_run");
+                } else if k >= 1000 && self.ch.coin(1, 4) {
+                    // the user's loop is late for a tick now and then: 20 ms before a
+                    // PINGREQ is due it stops polling for up to K/2. The ping goes out
+                    // late (allowed: K/2), and the NEXT interval has to be counted from
+                    // that ping - an answer that takes almost K is still in time
+                    self.c18_gap = true;
+                    self.end_ms = 8 * k + 50;
+                    self.rep.probe("c18_poll_gap_run");
                 }
             }
             C18Mode::Silent | C18Mode::SilentHalfOpen | C18Mode::SilentStalled => {
@@ -143,7 +151,7 @@ impl<'a> World<'a> {
 
     /// Allowance for the ping cadence in a busy run (see `c18_setup`).
     pub fn c18_slack(&self) -> u64 {
-        if self.c18_busy {
+        if self.c18_busy || self.c18_gap {
             self.k_ms() / 2
         } else {
             0
@@ -157,6 +165,43 @@ impl<'a> World<'a> {
         }
         let dmax = (self.k_ms() / 200).max(1) as u32;
         Some(std::time::Duration::from_millis(self.ch.pick(dmax + 1) as u64))
+    }
+
+    /// When the next poll gap of a gap run starts (20 ms before the next PINGREQ is due).
+    pub fn c18_gap_due(&self) -> Option<u64> {
+        if !self.c18_gap || self.c18_done || !self.established {
+            return None;
+        }
+        let idx = self.cur()?;
+        let c = &self.conns[idx];
+        if !c.connack_sent {
+            return None;
+        }
+        let last = c.last_ping_ms.unwrap_or(c.connack_ms);
+        if self.c18_gap_taken_for == Some(last) {
+            return None;
+        }
+        Some(last + self.k_ms() - 20)
+    }
+
+    /// The user's loop does not poll for a while (gap runs).
+    pub fn c18_gap_pause(&mut self) -> Option<std::time::Duration> {
+        let due = self.c18_gap_due()?;
+        let now = self.now_ms();
+        if now < due {
+            return None;
+        }
+        let idx = self.cur()?;
+        let last = self.conns[idx].last_ping_ms.unwrap_or(self.conns[idx].connack_ms);
+        self.c18_gap_taken_for = Some(last);
+        if !self.ch.coin(2, 3) {
+            return None;
+        }
+        let k = self.k_ms();
+        let g = 21 + self.ch.pick((k / 2 - 21) as u32) as u64;
+        tr!(self.rep, "{now} the user's loop pauses for {g} ms");
+        self.rep.fault("poll_gap");
+        Some(std::time::Duration::from_millis(g))
     }
 
     /// The injected connection failure of Answer mode.
@@ -352,7 +397,7 @@ impl<'a> World<'a> {
     pub fn c18_finish(&mut self) {
         let pings: u32 = self.conns.iter().map(|c| c.pings).sum();
         self.rep.nontrivial = match self.cfg.c18 {
-            C18Mode::Answer => pings >= 19 || (self.detected && pings >= 4) || (self.c18_busy && pings >= 3),
+            C18Mode::Answer => pings >= 19 || (self.detected && pings >= 4) || ((self.c18_busy || self.c18_gap) && pings >= 3),
             C18Mode::Silent | C18Mode::SilentHalfOpen | C18Mode::SilentStalled => self.detected,
             C18Mode::Zero => self.now_ms() >= 600_000,
             _ => self.detected,
